@@ -1177,6 +1177,7 @@ pub fn run(p: &Params, sum: &mut Summary) {
     };
     let mut total_calls = 0u64;
     let mut bbr_states_all = 0u16;
+    let mut acc = crate::common::Acc::default();
     for index in range {
         let (rng, kind, mtu, len) = history_params(p, index);
         if p.verbose {
@@ -1241,43 +1242,41 @@ pub fn run(p: &Params, sum: &mut Summary) {
                 total_calls += o.calls;
                 let k = kind.name();
                 for (name, n) in &o.stats.events {
-                    sum.count(&format!("{k}.{name}"), *n);
+                    acc.count(k, name, *n);
                 }
-                sum.count(&format!("{k}.histories"), 1);
-                sum.count(&format!("{k}.recovery_episodes"), o.stats.recovery_episodes);
-                sum.count(
-                    &format!("{k}.persistent_congestion_episodes"),
+                acc.count(k, "histories", 1);
+                acc.count(k, "recovery_episodes", o.stats.recovery_episodes);
+                acc.count(k, "persistent_congestion_episodes",
                     o.stats.pc_episodes,
                 );
-                sum.count(
-                    &format!("{k}.acks_checked_while_clearly_app_limited"),
+                acc.count(k, "acks_checked_while_clearly_app_limited",
                     o.stats.app_limited_holds,
                 );
                 if kind == Kind::Cubic {
-                    sum.count(
-                        "cubic.reductions_for_packets_sent_before_previous_recovery_start(appendix_B6_deviation)",
+                    acc.count(
+                        "cubic",
+                        "reductions_for_packets_sent_before_previous_recovery_start(appendix_B6_deviation)",
                         o.stats.appendix_b_deviations,
                     );
                 }
-                sum.count(
-                    &format!("{k}.congestion_signals_inside_recovery"),
+                acc.count(k, "congestion_signals_inside_recovery",
                     o.stats.losses_in_recovery,
                 );
-                sum.count(&format!("{k}.slow_start_exit.loss"), o.publ.ss_exit[0]);
-                sum.count(&format!("{k}.slow_start_exit.ecn"), o.publ.ss_exit[1]);
-                sum.count(&format!("{k}.slow_start_exit.rtt"), o.publ.ss_exit[2]);
-                sum.count(&format!("{k}.slow_start_exit.other"), o.publ.ss_exit[3]);
-                sum.count(&format!("{k}.pacing_rate_updates"), o.publ.pacing_updates);
-                sum.count(&format!("{k}.delivery_rate_samples"), o.publ.rate_samples);
+                acc.count(k, "slow_start_exit.loss", o.publ.ss_exit[0]);
+                acc.count(k, "slow_start_exit.ecn", o.publ.ss_exit[1]);
+                acc.count(k, "slow_start_exit.rtt", o.publ.ss_exit[2]);
+                acc.count(k, "slow_start_exit.other", o.publ.ss_exit[3]);
+                acc.count(k, "pacing_rate_updates", o.publ.pacing_updates);
+                acc.count(k, "delivery_rate_samples", o.publ.rate_samples);
                 if kind == Kind::Bbr {
-                    sum.count("bbr.state_transitions", o.publ.bbr_transitions);
+                    acc.count("bbr", "state_transitions", o.publ.bbr_transitions);
                     bbr_states_all |= o.publ.bbr_states;
                 }
                 if o.stats.min_margin != i64::MAX {
-                    sum.min(&format!("{k}.min_cwnd_margin_over_minimum"), o.stats.min_margin);
+                    acc.min(k, "min_cwnd_margin_over_minimum", o.stats.min_margin);
                 }
-                sum.max(&format!("{k}.max_cwnd"), o.stats.max_cwnd as i64);
-                sum.max(&format!("{k}.max_bytes_in_flight"), o.stats.max_bif as i64);
+                acc.max(k, "max_cwnd", o.stats.max_cwnd as i64);
+                acc.max(k, "max_bytes_in_flight", o.stats.max_bif as i64);
                 let nontrivial = o.stats.shape & shape::ACK != 0
                     && o.stats.shape & (shape::LOSS | shape::ECN) != 0;
                 if nontrivial {
@@ -1312,6 +1311,7 @@ pub fn run(p: &Params, sum: &mut Summary) {
             }
         }
     }
+    acc.flush(sum);
     sum.count("controller_calls_checked", total_calls);
     for (i, name) in BBR_NAMES.iter().enumerate() {
         if bbr_states_all & (1 << i) != 0 {
